@@ -583,10 +583,51 @@ def gen_history(rng, stream):
     return {"prop": PROP, "stream": stream, "objs": objs, "ops": ops}
 
 
+def gen_abort_sweep(rng):
+    """Systematic sweep of the abort point: one parser configuration, one
+    short state-setting document, and for EVERY token index k and EVERY read
+    index r of that document one history [setter aborted there, observer,
+    observer] ("abort of any call at any token or read")."""
+    cfg = dict(rng.choice(PARSER_CONFIGS), type="parser")
+    cfg["strict"] = False
+    setter = list(rng.choice(SETTERS))
+    if rng.random() < 0.3:
+        setter = ["<!DOCTYPE html>"] + setter
+    if rng.random() < 0.3:
+        setter = setter + [rng.choice(["x", " ", "\n", "<b>", "</p>", "<!--c-->", "&amp;"])]
+    first = {"op": "parse", "obj": 0, "doc": setter}
+    if rng.random() < 0.3:
+        first = {"op": "frag", "obj": 0, "doc": setter, "container": rng.choice(FRAG_CONTAINERS)}
+
+    def observers():
+        out = []
+        for _ in range(2):
+            doc = list(rng.choice(OBSERVERS))
+            if rng.random() < 0.3:
+                out.append({"op": "frag", "obj": 0, "doc": doc, "container": rng.choice(FRAG_CONTAINERS)})
+            else:
+                out.append({"op": "parse", "obj": 0, "doc": doc})
+        return out
+    ntok, _ = _count(cfg, dict(first))
+    io_op = dict(first, chunk=1, src={"reads": [], "rest": 1})
+    _n, nreads = _count(cfg, dict(io_op))
+    cases = []
+    for k in range(0, ntok + 1):
+        cases.append({"prop": PROP, "stream": "M2sweep", "objs": [cfg], "ops": [dict(first, cancel_at=k)] + observers()})
+    for r in range(0, nreads):
+        cases.append({"prop": PROP, "stream": "M2sweep", "objs": [cfg],
+                      "ops": [dict(io_op, src=dict(io_op["src"], fail_at=r))] + observers()})
+    for L in (3, 5, 7, 9, 11, 14):
+        cases.append({"prop": PROP, "stream": "M2sweep", "objs": [cfg], "ops": [dict(first, stack=L)] + observers()})
+    return cases
+
+
 def gen_unit(rng, stream="M1"):
     if stream == "M3":
         from . import baton
         return [baton.gen_case(rng)]
+    if stream == "M2sweep":
+        return gen_abort_sweep(rng)
     return [gen_history(rng, stream)]
 
 
@@ -878,8 +919,8 @@ def describe(case):
 
 def plan(tier):
     if tier == "thorough":
-        return [("M1", 400000), ("M2", 600000), ("M3", 40000)], 1500
-    return [("M1", 7000), ("M2", 11000), ("M3", 1200)], 300
+        return [("M1", 350000), ("M2", 500000), ("M2sweep", 20000), ("M3", 40000)], 1500
+    return [("M1", 6000), ("M2", 9000), ("M2sweep", 500), ("M3", 1200)], 300
 
 
 RULE = ("one run = one history of 2..12 operations (parse / parseFragment / parse of bytes with restart / serialize / walk / "
